@@ -1,6 +1,7 @@
 package specstep
 
 import (
+	"os"
 	"fmt"
 	"sort"
 	"strings"
@@ -43,6 +44,8 @@ type BFSOptions struct {
 	FailedIsViolation bool                                  // an error/panic edge is itself a violation (assertions of the spec)
 	KeepGraph  bool                                         // record states and edges (for graph comparison)
 	MaxViol    int
+	NoMemo     bool // execute the real code for every attempt (no transition memoisation)
+	MaxDev     int // deviation budget: states are explored in rounds of increasing number of deviations (0 = defaults only)
 }
 
 // Edge of the recorded graph.
@@ -65,6 +68,11 @@ type BFSResult struct {
 	GraphStates                               []*State // if KeepGraph
 	GraphEdges                                []Edge
 	NotExpanded                               int64 // states outside the constraint
+	DevRounds                                 []int64 // states first reached with exactly d deviations
+	OverBudget                                int64   // transitions not taken because they exceed MaxDev
+	MemoHits, MemoMisses, MemoChecks, MemoMismatch int64
+	MemoFirstMismatch                         string
+	Unconfirmed                               int64 // violations that did not reproduce on the real code without the memo (never reported)
 	WallS                                     float64
 	sys                                       *System
 }
@@ -124,130 +132,202 @@ func (sys *System) BFS(opt BFSOptions) *BFSResult {
 		if extra != nil {
 			path = append(path, *extra)
 		}
+		// believe nothing that does not reproduce on the real code, step by step, without the memo
+		if !sys.confirm(key, path, &opt) {
+			atomic.AddInt64(&res.Unconfirmed, 1)
+			viol.Delete(key)
+			nviol.Add(-1)
+			return
+		}
 		v := &Violation{Key: key, What: what, Path: path}
 		v.Trace = sys.Render(path)
 		idMu.Lock()
 		res.Violations = append(res.Violations, v)
 		idMu.Unlock()
 	}
+	var memo *Memo
+	if !opt.NoMemo && os.Getenv("VERIF_NOMEMO") == "" {
+		memo = NewMemo()
+	}
 	type item struct {
 		s  *State
 		id int32
 	}
-	id0, _ := addState(sys.Init, -1, Move{})
-	frontier := []item{{sys.Init, id0}}
-	for _, inv := range opt.Invariants {
-		if k, w := inv(sys.Init); k != "" {
-			report(k, w, id0, nil)
-		}
+	type pend struct {
+		s      *State
+		parent int32
+		mv     Move
 	}
+	pending := make([][]pend, opt.MaxDev+1)
+	pending[0] = []pend{{sys.Init, -1, Move{}}}
 	var edgeMu sync.Mutex
-	for depth := 0; len(frontier) > 0; depth++ {
-		res.Depth = depth
-		if opt.MaxDepth > 0 && depth >= opt.MaxDepth {
-			res.Exhaustive, res.Cap = false, "max_depth"
-			break
+	var pendMu sync.Mutex
+	depth := 0
+	capped := false
+rounds:
+	for d := 0; d <= opt.MaxDev; d++ {
+		var frontier []item
+		for _, pe := range pending[d] {
+			id, fresh := addState(pe.s, pe.parent, pe.mv)
+			if !fresh {
+				continue
+			}
+			for _, inv := range opt.Invariants {
+				if k, w := inv(pe.s); k != "" {
+					report(k, w, id, nil)
+				}
+			}
+			frontier = append(frontier, item{pe.s, id})
 		}
-		var next []item
-		var nextMu sync.Mutex
-		var idx atomic.Int64
-		var stop atomic.Bool
-		var isLeaf = make([]bool, len(frontier))
-		var wg sync.WaitGroup
-		for w := 0; w < opt.Workers; w++ {
-			wg.Add(1)
-			go func() {
-				defer wg.Done()
-				var local []item
-				for {
-					i := int(idx.Add(1) - 1)
-					if i >= len(frontier) || stop.Load() {
-						break
-					}
-					if i%64 == 0 && !opt.Deadline.IsZero() && time.Now().After(opt.Deadline) {
-						stop.Store(true)
-						break
-					}
-					it := frontier[i]
-					if opt.Constraint != nil && !opt.Constraint(it.s) {
-						atomic.AddInt64(&res.NotExpanded, 1)
-						isLeaf[i] = true
-						continue
-					}
-					children := 0
-					for p := range sys.Procs {
-						for _, a := range sys.Succ(it.s, p) {
-							a := a
-							switch a.Kind {
-							case Disabled:
-								atomic.AddInt64(&res.Disabled, 1)
-								continue
-							case Failed:
-								atomic.AddInt64(&res.ErrorEdges, 1)
-								mv := Move{P: p, Picks: toU8(a.Choices)}
-								if opt.FailedIsViolation {
-									report("error-edge/"+errClass(a.Err)+"@"+it.s.PC(p), fmt.Sprintf("process %s at %s: %s", sys.Procs[p].Name, it.s.PC(p), a.Err), it.id, &mv)
+		pending[d] = nil
+		res.DevRounds = append(res.DevRounds, 0)
+		for ; len(frontier) > 0; depth++ {
+			res.DevRounds[d] += int64(len(frontier))
+			if depth > res.Depth {
+				res.Depth = depth
+			}
+			if opt.MaxDepth > 0 && depth >= opt.MaxDepth {
+				res.Exhaustive, res.Cap = false, "max_depth"
+				capped = true
+				break rounds
+			}
+			var next []item
+			var nextMu sync.Mutex
+			var idx atomic.Int64
+			var stop atomic.Bool
+			var isLeaf = make([]bool, len(frontier))
+			var wg sync.WaitGroup
+			for w := 0; w < opt.Workers; w++ {
+				wg.Add(1)
+				go func() {
+					defer wg.Done()
+					var local []item
+					var localPend [][]pend
+					for {
+						i := int(idx.Add(1) - 1)
+						if i >= len(frontier) || stop.Load() {
+							break
+						}
+						if i%64 == 0 && !opt.Deadline.IsZero() && time.Now().After(opt.Deadline) {
+							stop.Store(true)
+							break
+						}
+						it := frontier[i]
+						if opt.Constraint != nil && !opt.Constraint(it.s) {
+							atomic.AddInt64(&res.NotExpanded, 1)
+							isLeaf[i] = true
+							continue
+						}
+						children := 0
+						for p := range sys.Procs {
+							var succ []Attempt
+							if memo != nil {
+								succ = sys.SuccMemo(memo, it.s, p)
+							} else {
+								succ = sys.Succ(it.s, p)
+							}
+							for _, a := range succ {
+								a := a
+								if a.Kind != Disabled && d+a.Dev > opt.MaxDev {
+									atomic.AddInt64(&res.OverBudget, 1)
+									continue
 								}
+								switch a.Kind {
+								case Disabled:
+									atomic.AddInt64(&res.Disabled, 1)
+									continue
+								case Failed:
+									atomic.AddInt64(&res.ErrorEdges, 1)
+									mv := Move{P: p, Picks: toU8(a.Choices)}
+									if opt.FailedIsViolation {
+										report("error-edge/"+errClass(a.Err)+"@"+it.s.PC(p), fmt.Sprintf("process %s at %s: %s", sys.Procs[p].Name, it.s.PC(p), a.Err), it.id, &mv)
+									}
+									for _, ei := range opt.EdgeInvs {
+										if k, w := ei(it.s, p, &a); k != "" {
+											report(k, w, it.id, &mv)
+										}
+									}
+									if opt.KeepGraph {
+										edgeMu.Lock()
+										res.GraphEdges = append(res.GraphEdges, Edge{From: it.id, To: -1, P: p, Err: a.Err})
+										edgeMu.Unlock()
+									}
+									continue
+								}
+								atomic.AddInt64(&res.Transitions, 1)
+								mv := Move{P: p, Picks: toU8(a.Choices)}
 								for _, ei := range opt.EdgeInvs {
 									if k, w := ei(it.s, p, &a); k != "" {
 										report(k, w, it.id, &mv)
 									}
 								}
+								if a.Dev > 0 {
+									// a deviating transition: its target belongs to a later round (unless a
+									// cheaper path reaches it first)
+									for len(localPend) <= a.Dev {
+										localPend = append(localPend, nil)
+									}
+									localPend[a.Dev] = append(localPend[a.Dev], pend{a.Next, it.id, mv})
+									continue
+								}
+								id, fresh := addState(a.Next, it.id, mv)
 								if opt.KeepGraph {
 									edgeMu.Lock()
-									res.GraphEdges = append(res.GraphEdges, Edge{From: it.id, To: -1, P: p, Err: a.Err})
+									res.GraphEdges = append(res.GraphEdges, Edge{From: it.id, To: id, P: p})
 									edgeMu.Unlock()
 								}
-								continue
-							}
-							atomic.AddInt64(&res.Transitions, 1)
-							mv := Move{P: p, Picks: toU8(a.Choices)}
-							for _, ei := range opt.EdgeInvs {
-								if k, w := ei(it.s, p, &a); k != "" {
-									report(k, w, it.id, &mv)
-								}
-							}
-							id, fresh := addState(a.Next, it.id, mv)
-							if opt.KeepGraph {
-								edgeMu.Lock()
-								res.GraphEdges = append(res.GraphEdges, Edge{From: it.id, To: id, P: p})
-								edgeMu.Unlock()
-							}
-							if fresh {
-								children++
-								for _, inv := range opt.Invariants {
-									if k, w := inv(a.Next); k != "" {
-										report(k, w, id, nil)
+								if fresh {
+									children++
+									for _, inv := range opt.Invariants {
+										if k, w := inv(a.Next); k != "" {
+											report(k, w, id, nil)
+										}
 									}
+									local = append(local, item{a.Next, id})
 								}
-								local = append(local, item{a.Next, id})
 							}
 						}
+						if children == 0 {
+							isLeaf[i] = true
+						}
 					}
-					if children == 0 {
-						isLeaf[i] = true
+					nextMu.Lock()
+					next = append(next, local...)
+					nextMu.Unlock()
+					pendMu.Lock()
+					for c, l := range localPend {
+						if len(l) > 0 {
+							pending[d+c] = append(pending[d+c], l...)
+						}
 					}
-				}
-				nextMu.Lock()
-				next = append(next, local...)
-				nextMu.Unlock()
-			}()
-		}
-		wg.Wait()
-		for i, l := range isLeaf {
-			if l {
-				res.Leaves = append(res.Leaves, frontier[i].id)
+					pendMu.Unlock()
+				}()
 			}
+			wg.Wait()
+			for i, l := range isLeaf {
+				if l {
+					res.Leaves = append(res.Leaves, frontier[i].id)
+				}
+			}
+			if stop.Load() {
+				res.Exhaustive, res.Cap = false, "deadline"
+				capped = true
+				break rounds
+			}
+			if opt.MaxStates > 0 && len(res.parent) >= opt.MaxStates {
+				res.Exhaustive, res.Cap = false, "max_states"
+				capped = true
+				break rounds
+			}
+			frontier = next
 		}
-		if stop.Load() {
-			res.Exhaustive, res.Cap = false, "deadline"
-			break
+	}
+	_ = capped
+	if memo != nil {
+		res.MemoHits, res.MemoMisses, res.MemoChecks, res.MemoMismatch = memo.Hits.Load(), memo.Misses.Load(), memo.Checks.Load(), memo.Mismatch.Load()
+		if v := memo.FirstMismatch.Load(); v != nil {
+			res.MemoFirstMismatch = v.(string)
 		}
-		if opt.MaxStates > 0 && len(res.parent) >= opt.MaxStates {
-			res.Exhaustive, res.Cap = false, "max_states"
-			break
-		}
-		frontier = next
 	}
 	res.States = int64(len(res.parent))
 	res.WallS = time.Since(start).Seconds()
@@ -287,6 +367,40 @@ func (r *BFSResult) pathTo(id int32) []Move {
 		rev[i], rev[j] = rev[j], rev[i]
 	}
 	return rev
+}
+
+// confirm replays path on the real code (no memo) and tells whether violation key shows again.
+func (sys *System) confirm(key string, path []Move, opt *BFSOptions) bool {
+	states, last, ok := sys.Replay(path)
+	if ok {
+		fin := states[len(states)-1]
+		for _, inv := range opt.Invariants {
+			if k, _ := inv(fin); k == key {
+				return true
+			}
+		}
+		if len(states) >= 2 && last != nil {
+			for _, ei := range opt.EdgeInvs {
+				if k, _ := ei(states[len(states)-2], path[len(path)-1].P, last); k == key {
+					return true
+				}
+			}
+		}
+		return false
+	}
+	if last != nil && last.Kind == Failed && len(states) == len(path) {
+		pre := states[len(states)-1]
+		p := path[len(path)-1].P
+		if "error-edge/"+errClass(last.Err)+"@"+pre.PC(p) == key {
+			return true
+		}
+		for _, ei := range opt.EdgeInvs {
+			if k, _ := ei(pre, p, last); k == key {
+				return true
+			}
+		}
+	}
+	return false
 }
 
 // PathTo returns the BFS-tree path to state id.
